@@ -791,7 +791,8 @@ pub fn steer(rng: &mut Rng, ins: &Instruction, bytes: &[u8], rip: u64, so: &Stee
         let seg32 = addr32 && (seg == Register::FS || seg == Register::GS) && !fixed && rng.below(3) != 0;
         let mut forced_want: Option<u64> = None;
         if seg32 {
-            let target = target_addr(rng, class, size, false);
+            // (only a final address above 4 GiB makes offset + base cross 2^32 with a user-half base: the high region)
+            let target = if rng.below(2) == 0 { target_addr(rng, Target::High, size, false) } else { target_addr(rng, class, size, false) };
             let off32 = match rng.below(4) {
                 0 => rng.below(0x1000),
                 1 => 0xffff_ffff - rng.below(0x1000),
